@@ -94,6 +94,21 @@ def mutants(rows, opts):
     pt = opts["physical_type"]
     first_stmt = True
     assigned = {"name": 0, "prefix": 0, "datatype": 0}
+    filled = {"name": set(), "prefix": set(), "datatype": set()}
+    last = {"name": 0, "prefix": 0, "datatype": 0}
+
+    def unfilled(kind):
+        """Slots of table ``kind`` never filled so far: the last slot, a gap below the highest filled one,
+        and the slot right after the highest filled one."""
+        size = sizes[kind]
+        out = []
+        cands = [size, max(filled[kind], default=0) + 1]
+        gaps = [i for i in range(1, max(filled[kind], default=0)) if i not in filled[kind]]
+        cands += gaps[:1] + gaps[-1:]
+        for c in cands:
+            if 1 <= c <= size and c not in filled[kind] and c not in out:
+                out.append(c)
+        return out
     for fi, ri, row in rows:
         k = row[0]
         pos = (fi, ri)
@@ -106,6 +121,9 @@ def mutants(rows, opts):
             continue
         if k in sizes:
             assigned[k] += 1
+            idx = row[1] or last[k] + 1
+            filled[k].add(idx)
+            last[k] = idx
             yield "entry_id_beyond_size", pos, f"{k} entry id size+1", (k, sizes[k] + 1, row[2])
             yield "entry_id_beyond_size", pos, f"{k} entry id 2^20", (k, 1 << 20, row[2])
             continue
@@ -139,20 +157,21 @@ def mutants(rows, opts):
                         set_path(row, path, ("iri", sizes["prefix"] + 1, t[2]))
                 else:
                     yield "prefix_table_disabled", pos, f"prefix_id 1 at {path}", set_path(row, path, ("iri", 1, t[2]))
-                if assigned["name"] < sizes["name"]:
-                    yield "ref_unfilled_slot", pos, f"name_id -> never filled slot at {path}", \
-                        set_path(row, path, ("iri", t[1], sizes["name"]))
-                if sizes["prefix"] and assigned["prefix"] < sizes["prefix"]:
-                    yield "ref_unfilled_slot", pos, f"prefix_id -> never filled slot at {path}", \
-                        set_path(row, path, ("iri", sizes["prefix"], t[2]))
+                for slot in unfilled("name"):
+                    yield "ref_unfilled_slot", pos, f"name_id -> never filled slot {slot} at {path}", \
+                        set_path(row, path, ("iri", t[1], slot))
+                if sizes["prefix"]:
+                    for slot in unfilled("prefix"):
+                        yield "ref_unfilled_slot", pos, f"prefix_id -> never filled slot {slot} at {path}", \
+                            set_path(row, path, ("iri", slot, t[2]))
             elif t[0] == "lit":
                 yield "datatype_zero", pos, f"datatype 0 at {path}", set_path(row, path, ("lit", t[1], ("dt", 0)))
                 if sizes["datatype"]:
                     yield "datatype_ref_beyond_size", pos, f"datatype size+1 at {path}", \
                         set_path(row, path, ("lit", t[1], ("dt", sizes["datatype"] + 1)))
-                    if assigned["datatype"] < sizes["datatype"]:
-                        yield "ref_unfilled_slot", pos, f"datatype -> never filled slot at {path}", \
-                            set_path(row, path, ("lit", t[1], ("dt", sizes["datatype"])))
+                    for slot in unfilled("datatype"):
+                        yield "ref_unfilled_slot", pos, f"datatype -> never filled slot {slot} at {path}", \
+                            set_path(row, path, ("lit", t[1], ("dt", slot)))
                 else:
                     yield "datatype_table_disabled", pos, f"datatype 1 with disabled table at {path}", \
                         set_path(row, path, ("lit", t[1], ("dt", 1)))
